@@ -190,6 +190,62 @@ theorem findShared_some (c : Cfg) (sh : Shares.St Comp) (u : Name) (path : List 
 
 /-! ## the index stays well-formed under the share operations of `step` -/
 
+theorem add_paths_mono (sh : Shares.St Comp) (p q : List Comp) (h : q ∈ sh.paths) : q ∈ (add sh p).1.paths := by
+  unfold add
+  split
+  · exact h
+  · split <;> exact List.mem_append_left _ h
+
+theorem mem_add_paths (sh : Shares.St Comp) (p : List Comp) : p ∈ (add sh p).1.paths := by
+  unfold add
+  split
+  · assumption
+  · split <;> simp
+
+theorem foldAdd_inv (ps : List (List Comp)) (sh : Shares.St Comp) (h : Shares.Inv sh) :
+    Shares.Inv (ps.foldl (fun s p => (add s p).1) sh) := by
+  induction ps generalizing sh with
+  | nil => exact h
+  | cons p ps ih => exact ih _ (inv_add sh p h)
+
+theorem foldAdd_paths_mono (ps : List (List Comp)) (sh : Shares.St Comp) (q : List Comp) (h : q ∈ sh.paths) :
+    q ∈ (ps.foldl (fun s p => (add s p).1) sh).paths := by
+  induction ps generalizing sh with
+  | nil => exact h
+  | cons p ps ih => exact ih _ (add_paths_mono sh p q h)
+
+theorem foldAdd_paths (ps : List (List Comp)) (sh : Shares.St Comp) (q : List Comp) (h : q ∈ ps) :
+    q ∈ (ps.foldl (fun s p => (add s p).1) sh).paths := by
+  induction ps generalizing sh with
+  | nil => simp at h
+  | cons p ps ih =>
+    simp only [List.foldl_cons]
+    rcases List.mem_cons.1 h with rfl | h
+    · exact foldAdd_paths_mono ps _ _ (mem_add_paths sh q)
+    · exact ih _ h
+
+/-- `load_from_settings()` leaves a well-formed index: exactly the listed directories, every item
+in the innermost listed directory that holds it, term map = index. -/
+theorem inv_reloadSh (sh : Shares.St Comp) (ps : List (List Comp)) (h : Shares.Inv sh) (hn : ps.Nodup) :
+    Shares.Inv (reloadSh sh ps) ∧ (reloadSh sh ps).paths = ps := by
+  have h1 := foldAdd_inv ps sh h
+  refine ⟨⟨hn, ?_, ?_, (List.filter_sublist).nodup h1.items_nodup, (List.filter_sublist).nodup h1.items_nodup,
+    fun _ => Iff.rfl⟩, rfl⟩
+  · intro it hit
+    simp only [reloadSh, List.mem_filter, List.contains_iff_mem] at hit
+    exact hit.2
+  · intro it hit q hq hpre
+    simp only [reloadSh, List.mem_filter] at hit
+    exact h1.innermost it hit.1 q (foldAdd_paths ps sh q hq) hpre
+
+theorem inv_reload (sh : Shares.St Comp) (ps : List (List Comp)) (disk : List (File Comp)) (h : Shares.Inv sh)
+    (hn : ps.Nodup) :
+    Shares.Inv (ps.foldl (fun sh p => scanDir sh p disk) (reloadSh sh ps)) ∧
+      (ps.foldl (fun sh p => scanDir sh p disk) (reloadSh sh ps)).paths = ps := by
+  obtain ⟨h1, h2⟩ := inv_reloadSh sh ps h hn
+  obtain ⟨h3, h4⟩ := inv_scanAll disk ps (reloadSh sh ps) h1 (by intro p hp; rw [h2]; exact hp)
+  exact ⟨h3, h4.trans h2⟩
+
 theorem inv_step_sh (s : S) (op : Op) (h : Shares.Inv s.sh) : Shares.Inv (step s op).1.sh := by
   cases op with
   | share d disk =>
@@ -197,12 +253,7 @@ theorem inv_step_sh (s : S) (op : Op) (h : Shares.Inv s.sh) : Shares.Inv (step s
     split
     · rename_i hr
       have h1 : Shares.Inv (add s.sh d.path).1 := inv_add s.sh d.path h
-      have hp : d.path ∈ (add s.sh d.path).1.paths := by
-        simp only [add] at hr ⊢
-        split
-        · rename_i hm; simp [hm] at hr
-        · split <;> simp
-      exact (inv_scanDir _ _ disk h1 hp).1
+      exact (inv_scanDir _ _ disk h1 (mem_add_paths s.sh d.path)).1
     · exact h
   | unshare p =>
     simp only [step]
@@ -211,6 +262,14 @@ theorem inv_step_sh (s : S) (op : Op) (h : Shares.Inv s.sh) : Shares.Inv (step s
     · exact h
   | setMode p m => simp only [step]; split <;> exact h
   | cycle => simp only [step]; split <;> exact h
+  | poll => simp only [step]; split <;> exact h
+  | reload es disk =>
+    simp only [step]
+    split
+    · exact h
+    · rename_i hn
+      exact (inv_reload s.sh _ disk h (by simpa using hn)).1
+  | scanAll disk => exact (inv_scanAll disk s.sh.paths s.sh h (fun _ hp => hp)).1
   | _ => exact h
 
 theorem inv_run_sh (ops : List Op) (s : S) (h : Shares.Inv s.sh) : Shares.Inv (run s ops).sh := by
@@ -502,7 +561,144 @@ theorem sticky_step (s : S) (op : Op) (k : Nat) (x : Xfer) (hk : s.xs[k]? = some
   | share d disk => simp only [step]; split <;> exact hk
   | unshare p => simp only [step]; split <;> exact hk
   | setMode p m => simp only [step]; split <;> exact hk
+  | poll => simp only [step]; split <;> exact hk
+  | reload es disk => simp only [step]; split <;> exact hk
   | _ => exact hk
+
+/-! ## reachable states: the configured directories are the shared ones -/
+
+/-- what every reachable state satisfies: the index is well-formed and every configured directory
+(`DirInfo`) belongs to a shared path -/
+structure WF (s : S) : Prop where
+  sh : Shares.Inv s.sh
+  dirs : ∀ d ∈ s.cfg.dirs, d.path ∈ s.sh.paths
+
+theorem wf_init (K : Query.Cls Ch) (cap : Nat) : WF { cls := K, cfg := { cap := cap } } :=
+  ⟨Shares.inv_init, by simp⟩
+
+theorem remove_paths_mem {C : Type} [DecidableEq C] (sh : Shares.St C) (p q : List C) (hq : q ∈ sh.paths)
+    (hne : q ≠ p) : q ∈ (remove sh p).1.paths := by
+  unfold remove
+  split
+  · exact hq
+  · dsimp only
+    split <;> exact (List.mem_erase_of_ne hne).2 hq
+
+theorem wf_step (s : S) (op : Op) (h : WF s) : WF (step s op).1 := by
+  refine ⟨inv_step_sh s op h.sh, ?_⟩
+  cases op with
+  | share d disk =>
+    simp only [step]
+    split
+    · intro d' hd'
+      have hp : (scanDir (add s.sh d.path).1 d.path disk).paths = (add s.sh d.path).1.paths := rfl
+      simp only [hp]
+      rcases List.mem_append.1 hd' with hd' | hd'
+      · exact add_paths_mono _ _ _ (h.dirs d' hd')
+      · simp only [List.mem_singleton] at hd'
+        subst hd'
+        exact mem_add_paths s.sh d'.path
+    · exact h.dirs
+  | unshare p =>
+    simp only [step]
+    split
+    · rename_i hr
+      intro d' hd'
+      simp only [List.mem_filter, decide_eq_true_eq] at hd'
+      exact remove_paths_mem s.sh p d'.path (h.dirs d' hd'.1) hd'.2
+    · exact h.dirs
+  | setMode p m =>
+    simp only [step]
+    split
+    · intro d' hd'
+      simp only [setDirMode, List.mem_map] at hd'
+      obtain ⟨d0, hd0, rfl⟩ := hd'
+      have := h.dirs d0 hd0
+      split <;> exact this
+    · exact h.dirs
+  | cycle => simp only [step]; split <;> exact h.dirs
+  | poll => simp only [step]; split <;> exact h.dirs
+  | reload es disk =>
+    simp only [step]
+    split
+    · exact h.dirs
+    · rename_i hn
+      intro d' hd'
+      rw [(inv_reload s.sh _ disk h.sh (by simpa using hn)).2]
+      exact List.mem_map_of_mem hd'
+  | scanAll disk =>
+    intro d' hd'
+    simp only [step]
+    rw [(inv_scanAll disk s.sh.paths s.sh h.sh (fun _ hp => hp)).2]
+    exact h.dirs d' hd'
+  | setFriends l => exact h.dirs
+  | setBlocked l => exact h.dirs
+  | mutFriends l => exact h.dirs
+  | mutBlocked l => exact h.dirs
+  | phrases l => exact h.dirs
+  | search u q => exact h.dirs
+  | sharesReq u => exact h.dirs
+  | dirReq u q => exact h.dirs
+  | queueReq u q => exact h.dirs
+  | xferReq u q => exact h.dirs
+  | meth k m => exact h.dirs
+  | userAbort k => exact h.dirs
+  | userQueue k => exact h.dirs
+
+theorem wf_run (ops : List Op) (s : S) (h : WF s) : WF (run s ops) := by
+  induction ops generalizing s with
+  | nil => exact h
+  | cons op ops ih =>
+    simp only [run, List.foldl_cons]
+    exact ih _ (wf_step s op h)
+
+/-- with no shared directory left there is no configured directory and no indexed item -/
+theorem wf_empty (s : S) (h : WF s) (hp : s.sh.paths = []) : s.cfg.dirs = [] ∧ s.sh.items = [] := by
+  constructor
+  · apply List.eq_nil_iff_forall_not_mem.2
+    intro d hd
+    have := h.dirs d hd
+    rw [hp] at this
+    simp at this
+  · apply List.eq_nil_iff_forall_not_mem.2
+    intro it hit
+    have := h.sh.owner it hit
+    rw [hp] at this
+    simp at this
+
+/-- `load_from_settings()` announces itself unless the settings name no directory and none was
+shared — and then it changes nothing -/
+theorem reload_silent (s : S) (h : WF s) (es : List DirInfo)
+    (ha : (!es.isEmpty || !(droppedBy s.sh (es.map (·.path))).isEmpty) = false) :
+    es = [] ∧ s.cfg.dirs = [] ∧ s.sh.items = [] := by
+  simp only [Bool.or_eq_false_iff, Bool.not_eq_false', List.isEmpty_iff] at ha
+  obtain ⟨h1, h2⟩ := ha
+  subst h1
+  have hp : s.sh.paths = [] := by
+    apply List.eq_nil_iff_forall_not_mem.2
+    simpa [droppedBy] using h2
+  exact ⟨rfl, wf_empty s h hp⟩
+
+/-! ## the shares-changed flag -/
+
+/-- only a cycle clears the flag -/
+theorem flag_persists (s : S) (op : Op) (hop : op ≠ .cycle) (h : s.sharesChanged = true) :
+    (step s op).1.sharesChanged = true := by
+  cases op with
+  | cycle => exact absurd rfl hop
+  | setFriends l => rfl
+  | setBlocked l => rfl
+  | share d disk => simp only [step]; split <;> first | rfl | exact h
+  | unshare p => simp only [step]; split <;> first | rfl | exact h
+  | setMode p m => simp only [step]; split <;> first | rfl | exact h
+  | poll => simp only [step]; split <;> first | rfl | exact h
+  | reload es disk =>
+    simp only [step]
+    split
+    · exact h
+    · simp [h]
+  | scanAll disk => rfl
+  | _ => exact h
 
 
 end AioslskVerif.Entitle
